@@ -12,6 +12,7 @@ package http
 // has been handed to In as complete lines (each line counts its separator).
 
 //@ func (*Plugin).processChunk
+//@   option check-nil yes
 //@   ghost body seq
 //@   ghost cpos int
 //@   ghost emitted int
@@ -49,6 +50,7 @@ package http
 // out buffers owned by this request (sync.Pool ownership: trusted).
 
 //@ func (*Plugin).processBulk
+//@   option check-nil yes
 //@   ghost body seq
 //@   ghost rpos int = 0
 //@   ghost emitted int = 0
@@ -142,6 +144,7 @@ package http
 //@   invariant allrange(p.sourceIDs, 0, p.sourceSeq) && distinct(p.sourceIDs)
 
 //@ func (*Plugin).getSourceID
+//@   option check-nil yes
 //@   ensures !held(p.mu)
 //@   ghost gseq int = 0
 //@   setat "if len(p.sourceIDs) == 0 {" gseq := p.sourceSeq
@@ -156,6 +159,7 @@ package http
 // flight are below it and must never be issued again), the list grows by exactly x.
 
 //@ func (*Plugin).putSourceID
+//@   option check-nil yes
 //@   ensures !held(p.mu)
 //@   ghost seq0 int = 0
 //@   ghost len0 int = 0
@@ -467,6 +471,7 @@ package http
 // object to one caller at a time (sync.Pool ownership, as for the buffers).
 
 //@ func (*Plugin).acquireGzipReader
+//@   option check-nil yes
 //@   pure
 //@   ghost nnew int = 0
 //@   ghost nreset int = 0
@@ -498,6 +503,7 @@ package http
 // uninterpreted outcomes of strings.HasPrefix / HasSuffix.
 
 //@ func (*CORSConfig).getAllowedByOrigin
+//@   option check-nil yes
 //@   pure
 //@   ensures c.allowedOriginsAll ==> result == origin
 //@   ensures (exists k :: 0 <= k && k < len(c.allowedOriginsDomains) && ((len(c.allowedOriginsDomains[k].domain) > 0 && origin == c.allowedOriginsDomains[k].domain) || (len(c.allowedOriginsDomains[k].prefix) + len(c.allowedOriginsDomains[k].suffix) > 0 && len(origin) > len(c.allowedOriginsDomains[k].prefix) + len(c.allowedOriginsDomains[k].suffix) && up_hasprefix(origin, c.allowedOriginsDomains[k].prefix) && up_hassuffix(origin, c.allowedOriginsDomains[k].suffix)))) ==> result == origin
